@@ -56,6 +56,7 @@ const (
 	decoTrailingCond
 	decoInnerCond
 	decoCondBranches
+	decoRichOperands
 	decoCount
 )
 
@@ -121,6 +122,10 @@ func (p *c04) chainAt(i int) *c04chain {
 			c.inner = i % (n + 1)
 		case decoCondBranches:
 			c.cond = 2
+		case decoRichOperands:
+			for x := 0; x <= n; x++ {
+				c.enrich(x, i/decoCount+x)
+			}
 		}
 		return c
 	}
@@ -140,7 +145,39 @@ func (p *c04) chainAt(i int) *c04chain {
 	if r.Intn(3) == 0 {
 		c.inner = r.Intn(n + 1)
 	}
+	for x := 0; x <= n; x++ {
+		if r.Intn(3) == 0 {
+			c.enrich(x, r.Intn(64))
+		}
+	}
 	return c
+}
+
+// enrich replaces a plain name operand by another primary form built on the same name (an operand is whatever
+// the grammar accepts as a primary expression, and grouping must not depend on which one it is).
+func (c *c04chain) enrich(i, form int) {
+	nm, ok := c.operands[i].(*gen.EName)
+	if !ok {
+		return
+	}
+	switch form % 8 {
+	case 0:
+		c.operands[i] = &gen.EInterp{Parts: []gen.Expr{&gen.EStr{S: "s"}, nm}} // "s#{v}": ends in an interpolation
+	case 1:
+		c.operands[i] = &gen.EInterp{Parts: []gen.Expr{nm}}
+	case 2:
+		c.operands[i] = &gen.EInterp{Parts: []gen.Expr{nm, &gen.EStr{S: "t"}}}
+	case 3:
+		c.operands[i] = &gen.ECall{Fn: "ident", Args: []gen.Expr{nm}}
+	case 4:
+		c.operands[i] = &gen.EFilter{X: nm, Name: "ident"}
+	case 5:
+		c.operands[i] = &gen.EAttr{X: &gen.EArr{Els: []gen.Expr{nm}}, Key: &gen.ENum{Text: "0"}}
+	case 6:
+		c.operands[i] = &gen.EAttr{X: &gen.EHash{Keys: []gen.Expr{&gen.EStr{S: "k"}}, Vals: []gen.Expr{nm}}, Key: &gen.EStr{S: "k"}, Dot: true}
+	default:
+		c.operands[i] = &gen.EStr{S: "lit" + nm.Name}
+	}
 }
 
 func (c *c04chain) setPrefix(pos int, u string) {
@@ -407,7 +444,7 @@ func (p *c04) Run(i int) (res fw.Result) {
 }
 
 func (p *c04) Rule() string {
-	return "exhaustive: every chain of k binary operators (all 27, incl. is / is not with a test as right operand) over self-identifying operands for k<=2 (quick) / k<=4 (thorough: 27+729+19683+531441 chains), each in 8 decorations (plain; unary -,+,not on the first / second / last operand; not on the first plus - on the last; trailing conditional; a parenthesised conditional as an operand; right-nested conditionals with the chain in the branches); plus seeded random chains of 5..12 operators with random prefixes and conditionals. Oracle: reference precedence climbing over a pinned copy of the operator table yields the fully parenthesised form; the flat and the parenthesised spelling must parse to the same tree (GroupExpr erased) and render identically (output and error kind) under 3 valuations (all chains k<=3, every 20th k=4 chain, all random chains). Non-trivial = k>=2; distinct = operator sequence + decoration."
+	return "exhaustive: every chain of k binary operators (all 27, incl. is / is not with a test as right operand) over self-identifying operands for k<=2 (quick) / k<=4 (thorough: 27+729+19683+531441 chains), each in 9 decorations (plain; operands that are not plain names: interpolated strings ending / starting / consisting of an interpolation, calls, filters, subscripts of array and hash literals, string literals; unary -,+,not on the first / second / last operand; not on the first plus - on the last; trailing conditional; a parenthesised conditional as an operand; right-nested conditionals with the chain in the branches); plus seeded random chains of 5..12 operators with random prefixes and conditionals. Oracle: reference precedence climbing over a pinned copy of the operator table yields the fully parenthesised form; the flat and the parenthesised spelling must parse to the same tree (GroupExpr erased) and render identically (output and error kind) under 3 valuations (all chains k<=3, every 20th k=4 chain, all random chains). Non-trivial = k>=2; distinct = operator sequence + decoration."
 }
 
 func (p *c04) Assumptions() []string {
